@@ -25,7 +25,7 @@ try:
     if r.returncode != 0:
         print(label, "APPLY-FAILED", r.stdout[:300].replace("\n", " | "))
         sys.exit(3)
-    env = dict(os.environ, VERIF_REPO=wt, VERIF_EVIDENCE_DIR="/tmp/sens_evidence", VERIF_REPLAY_DIR="/tmp/sens_replays_%s" % label)
+    env = dict(os.environ, VERIF_STOP_ON_FIRST="1", VERIF_REPO=wt, VERIF_EVIDENCE_DIR="/tmp/sens_evidence", VERIF_REPLAY_DIR="/tmp/sens_replays_%s" % label)
     checks = ALL if a.checks == "all" else a.checks.split(",")
     for c in checks:
         t0 = time.time()
